@@ -271,7 +271,8 @@ def p4_type_ignores(op: int, i: int):
         n = len(root.a.body)
     try:
         if o == 0:
-            root.body.insert('q = 0', i)
+            assume(-n - 2 <= i <= n + 2)
+            root.body.insert('q = 0', pc.pin(i, -n - 2, n + 2))
         elif o == 1:
             assume(-n <= i < n)
             root.body[pc.pin(i, -n, n - 1)].remove()
